@@ -335,6 +335,10 @@ func (fx *FuncCtx) heapSet(st *State, k HeapKey, term string) {
 	// remember which object was written (for syntactic frame checks)
 	if op, args := sexprArgs(term); op == "store" && len(args) == 3 {
 		st.noteWrite(k.Key, args[1])
+		// storing back the value the location holds already changes nothing: keep the heap version (fewer array terms)
+		if cur, ok := st.heap[k.Key]; ok && args[0] == cur && args[2] == sx("select", cur, args[1]) {
+			return
+		}
 	} else {
 		st.noteWrite(k.Key, "*")
 	}
@@ -477,6 +481,16 @@ func (fx *FuncCtx) store(st *State, l *Loc, v Val) {
 
 // elements of a fresh unknown inner array are values of the element type
 func (fx *FuncCtx) assumeArrayTyping(st *State, arr string, elem types.Type, c comp) {
+	if fx.mode == ModeInt && c.kind == "ref" {
+		fx.assumeRefArray(st, arr, fx.mode.lenSort())
+		return
+	}
+	if fx.mode == ModeInt && c.kind == "len" {
+		fx.decls.n++
+		q := fmt.Sprintf("q$tl!%d", fx.decls.n)
+		st.assume("(forall ((" + q + " Int)) (! " + and(sx("<=", "0", sx("select", arr, q)), sx("<", sx("select", arr, q), pow2(62).String())) + " :pattern (" + sx("select", arr, q) + ")))")
+		return
+	}
 	if fx.mode != ModeInt || c.kind != "int" {
 		return
 	}
